@@ -19,6 +19,7 @@ type polSpec struct {
 	MaxRetries int     `json:"max_retries,omitempty"`
 	Abort      condSet `json:"abort,omitempty"`
 	ReturnLast bool    `json:"return_last,omitempty"`
+	LongDelay  bool    `json:"long_delay,omitempty"` // 1h retry delay; only inside a short Timeout, which fires during the delay
 	// retry, breaker, fallback
 	Handle condSet `json:"handle,omitempty"`
 	// breaker (count based kinds only: deterministic)
@@ -207,6 +208,11 @@ func genProgram(r *rand.Rand, bias string) program {
 		}
 	}
 	p.hasShort = shortAt >= 0
+	for i := range p.Pols {
+		if p.Pols[i].Kind == "retry" && p.hasShort && i > shortAt && r.IntN(4) == 0 {
+			p.Pols[i].LongDelay = true
+		}
+	}
 	p.ExecLis = vk.Pick(r, uint32(7), 7, 7, 5, 6, 3, 1, 2, 4, 0)
 	ne := 1 + r.IntN(6)
 	for e := 0; e < ne; e++ {
